@@ -56,6 +56,9 @@ Proof.
     destruct s; simpl in *; eapply NoDup_app_disj; eauto.
 Qed.
 
+Lemma QInv_rings_disj' w X s x : QInv w X -> In x (qaddr (negb s) :: sel (negb s) X) -> ~ In x (qaddr s :: sel s X).
+Proof. intros I H H'. exact (QInv_rings_disj w X s x I H' H). Qed.
+
 Lemma QInv_live_sentinel w X s : QInv w X -> live (w_h w) (qaddr s).
 Proof. intros I. eapply Ring_live; [apply (qi_ring _ _ I s)|left; reflexivity]. Qed.
 
@@ -451,8 +454,7 @@ Proof.
     + intros t. destruct (bool_cases s t) as [->| ->].
       * rewrite sel_upd_same. exact R.
       * rewrite sel_upd_other. eapply Ring_Frame; [apply (qi_ring _ _ I)|exact F|].
-        intros x Hx Hin. revert Hx. replace s with (negb (negb s)) in Hin by apply negb_involutive.
-        intros Hx. eapply QInv_rings_disj; eauto.
+        intros x Hx. eapply QInv_rings_disj'; eauto.
     + eapply Permutation_NoDup; [symmetry; exact Hperm|apply (qi_nodup _ _ I)].
     + intros x Hx. eapply Permutation_in in Hx; [|exact Hperm].
       pose proof (qi_node _ _ I x Hx) as (B & L & V). split; [exact B|]. split; [apply Lv; exact L|exact V].
@@ -538,7 +540,7 @@ Proof.
           apply in_or_app. right. left. reflexivity. }
       destruct (take_ok w X s m n [] I Hsel) as (w' & r & E & T & C). exists w', r.
       split; [exact E|]. split; [exact T|]. rewrite rev_involutive.
-      rewrite !app_nil_r in C. unfold pairs at 2 in C. cbn [map] in C. rewrite app_nil_r in C. exact C.
+      rewrite !app_nil_r in C. exact C.
 Qed.
 
 (* ------------------------------------------------------------------ walking to a position *)
@@ -629,4 +631,1023 @@ Proof.
   - rewrite !last_last. replace (N.eqb n (qaddr s)) with false; [reflexivity|].
     symmetry. apply N.eqb_neq. intros ->. apply (QInv_head_notin w X s I). rewrite Hsel.
     apply in_or_app. right. left. reflexivity.
+Qed.
+
+(* ------------------------------------------------------------------ insert / remove *)
+Lemma nth_split_firstn_skipn {A} (l : list A) k d :
+  (k < length l)%nat -> l = firstn k l ++ nth k l d :: skipn (S k) l /\ skipn k l = nth k l d :: skipn (S k) l.
+Proof.
+  revert k. induction l as [|a l IH]; intros k Hk; [simpl in Hk; lia|].
+  destruct k as [|k]; [simpl; auto|]. simpl in Hk. destruct (IH k ltac:(lia)) as [E1 E2].
+  split.
+  - cbn [firstn nth skipn app]. f_equal. exact E1.
+  - cbn [nth]. change (skipn (S k) (a :: l)) with (skipn k l). rewrite E2. reflexivity.
+Qed.
+
+Lemma insert_before h c l1 it l2 n :
+  Ring h (c :: l1 ++ it :: l2) -> live h n -> ~ In n (c :: l1 ++ it :: l2) ->
+  exists h', l_add_prev h it n = Some h' /\ Ring h' (c :: l1 ++ n :: it :: l2) /\
+    Frame h h' (n :: c :: l1 ++ it :: l2) /\ (forall x, live h' x <-> live h x).
+Proof.
+  intros R L Hn.
+  apply (Ring_rot h (c :: l1) (it :: l2)) in R. cbn [app] in R.
+  assert (Hn' : ~ In n (it :: l2 ++ c :: l1)).
+  { intros H. apply Hn. change (it :: l2 ++ c :: l1) with ((it :: l2) ++ (c :: l1)) in H.
+    apply in_app_or in H. change (c :: l1 ++ it :: l2) with ((c :: l1) ++ (it :: l2)). apply in_or_app. tauto. }
+  destruct (add_prev_spec h it (l2 ++ c :: l1) n R L Hn') as (h' & E & R' & F & Lv).
+  exists h'. split; [exact E|]. split; [|split; [|exact Lv]].
+  - change (it :: (l2 ++ c :: l1) ++ [n]) with ((it :: l2 ++ c :: l1) ++ [n]) in R'.
+    replace ((it :: l2 ++ c :: l1) ++ [n]) with ((it :: l2) ++ ((c :: l1) ++ [n])) in R'
+      by (cbn [app]; rewrite <- !app_assoc; reflexivity).
+    apply Ring_rot in R'. rewrite <- app_assoc in R'. exact R'.
+  - eapply Frame_incl; eauto. intros x Hx.
+    assert (Hl : In (last (l2 ++ c :: l1) it) (l2 ++ c :: l1)) by (apply in_last; destruct l2; discriminate).
+    destruct Hx as [Hx|[Hx|[Hx|[]]]]; subst x.
+    + right. right. apply in_or_app. right. left. reflexivity.
+    + left. reflexivity.
+    + right. apply in_app_or in Hl. change (c :: l1 ++ it :: l2) with ((c :: l1) ++ it :: l2). apply in_or_app.
+      destruct Hl; [right; right; auto|left; auto].
+Qed.
+
+Lemma insert_ok w X s idx v :
+  QInv w X ->
+  exists w' n, q_insert w s idx v = Ok (w', n) /\ trace_ok w w' /\
+    ((n = 0 /\ QInv w' X /\ abs w' X = abs w X /\ failed w' = true) \/
+     (n <> 0 /\ ~ In n (addrs (abs w X)) /\
+      let xs' := if N.ltb idx (N.of_nat (length (sel s X)))
+                 then insert_at (N.to_nat idx) n (sel s X) else sel s X ++ [n] in
+      QInv w' (upd s xs' X) /\
+      abs w' (upd s xs' X) =
+        upd s (if N.ltb idx (N.of_nat (length (sel s (abs w X))))
+               then insert_at (N.to_nat idx) (n, v) (sel s (abs w X)) else sel s (abs w X) ++ [(n, v)]) (abs w X))).
+Proof.
+  intros I. unfold q_insert. rewrite (qi_num _ _ I s), sel_abs.
+  assert (Hlen : length (pairs w (sel s X)) = length (sel s X)) by apply map_length. rewrite Hlen.
+  destruct (N.ltb idx (N.of_nat (length (sel s X)))) eqn:Hidx.
+  - apply N.ltb_lt in Hidx.
+    destruct (new_spec w X s I) as (w1 & n & E & [(Hn & Hc & Hf & Hs)|(Hn & M & Hval & Hf & Hs)]); rewrite E.
+    + subst n. cbn [N.eqb]. exists w1, 0. split; [reflexivity|]. split; [intros H; contradiction|].
+      left. split; [reflexivity|]. split; [eapply same_core_QInv; eauto|]. split; [apply same_core_abs; auto|auto].
+    + replace (N.eqb n 0) with false by (symmetry; apply N.eqb_neq; exact Hn).
+      pose proof (mn_ring _ _ _ _ M s) as R.
+      rewrite (Ring_next _ [] (qaddr s) (sel s X) R). cbn [lift hd].
+      assert (Hfuel : (length (sel s X) < fuel_of w1)%nat).
+      { pose proof (mn_fresh _ _ _ _ M) as F. unfold fuel_of.
+        assert (length (sel s X) <= length (allnodes w1 X))%nat.
+        { unfold allnodes. rewrite !app_length. destruct s; simpl; lia. }
+        simpl length in F. lia. }
+      rewrite (seek_fwd_spec (w_h w1) (qaddr s) [] (sel s X)); auto.
+      set (k := N.to_nat idx). assert (Hk : (k < length (sel s X))%nat) by (unfold k; lia).
+      destruct (nth_split_firstn_skipn (sel s X) k 0 Hk) as [Esplit Eskip].
+      set (it := nth k (sel s X) 0) in *.
+      assert (Hit : In it (sel s X)) by (apply nth_In; exact Hk).
+      assert (Hitnz : it <> 0).
+      { assert (3 <= it). { apply (mn_node _ _ _ _ M). right. eapply allnodes_sel; eauto. } lia. }
+      replace (N.eqb it 0) with false by (symmetry; apply N.eqb_neq; exact Hitnz).
+      pose proof (QMidNew_notin _ _ _ _ M) as Hnot.
+      assert (Ln : live (w_h w1) n) by (apply (mn_node _ _ _ _ M); left; reflexivity).
+      rewrite Esplit in R, Hnot.
+      destruct (insert_before (w_h w1) (qaddr s) (firstn k (sel s X)) it (skipn (S k) (sel s X)) n R Ln Hnot)
+        as (h' & Eh & R' & F & Lv).
+      rewrite Eh. cbn [lift]. eexists _, n. split; [reflexivity|].
+      assert (Esel : sel s X = firstn k (sel s X) ++ skipn k (sel s X)) by (symmetry; apply firstn_skipn).
+      rewrite <- Eskip in R'.
+      destruct (insert_master w X s w1 n h' (firstn k (sel s X)) (skipn k (sel s X)) v M Hval Esel R')
+        as (I' & A' & Nn); auto.
+      { rewrite <- Esplit in F. exact F. }
+      split; [|right; split; [exact Hn|split; [exact Nn|split; [exact I'|]]]].
+      * intros H. split; [apply Hs; exact H|exact Hf].
+      * unfold insert_at at 1. fold k. rewrite A'. unfold insert_at, pairs. fold k. rewrite firstn_map, skipn_map. reflexivity.
+  - destruct (push_ok false w X s v I) as (w' & n & E & T & C). exists w', n.
+    split; [exact E|]. split; [exact T|]. rewrite sel_abs in C. exact C.
+Qed.
+
+Lemma remove_ok w X s idx :
+  QInv w X ->
+  exists w' r, q_remove w s idx = Ok (w', r) /\ trace_ok w w' /\
+    if N.ltb idx (N.of_nat (length (sel s X))) then
+      (r = 0 /\ QInv w' X /\ abs w' X = abs w X /\ failed w' = true) \/
+      (r = nth (N.to_nat idx) (sel s X) 0 /\
+       QInv w' (upd s (remove_at (N.to_nat idx) (sel s X)) X) /\
+       abs w' (upd s (remove_at (N.to_nat idx) (sel s X)) X) =
+         upd s (remove_at (N.to_nat idx) (sel s (abs w X))) (abs w X))
+    else
+      match rev (sel s X) with
+      | [] => r = 0 /\ w' = w
+      | n :: t =>
+          (r = 0 /\ QInv w' X /\ abs w' X = abs w X /\ failed w' = true) \/
+          (r = n /\ QInv w' (upd s (rev t) X) /\ abs w' (upd s (rev t) X) = upd s (pairs w (rev t)) (abs w X))
+      end.
+Proof.
+  intros I. unfold q_remove. rewrite (qi_num _ _ I s).
+  destruct (N.ltb idx (N.of_nat (length (sel s X)))) eqn:Hidx.
+  - apply N.ltb_lt in Hidx. pose proof (qi_ring _ _ I s) as R.
+    rewrite (Ring_next _ [] (qaddr s) (sel s X) R). cbn [lift hd].
+    rewrite (seek_fwd_spec (w_h w) (qaddr s) [] (sel s X)); auto using QInv_fuel.
+    set (k := N.to_nat idx). assert (Hk : (k < length (sel s X))%nat) by (unfold k; lia).
+    destruct (nth_split_firstn_skipn (sel s X) k 0 Hk) as [Esplit _].
+    destruct (take_ok w X s _ _ _ I Esplit) as (w' & r & E & T & C).
+    exists w', r. split; [exact E|]. split; [exact T|].
+    destruct C as [C|(Hr & I' & A')]; [left; exact C|right].
+    split; [exact Hr|]. split; [exact I'|]. unfold remove_at at 1. fold k. rewrite A', sel_abs. unfold remove_at, pairs.
+    fold k. rewrite firstn_map, skipn_map. reflexivity.
+  - destruct (pull_ok false w X s I) as (w' & r & E & T & C). exists w', r. split; [exact E|]. split; [exact T|].
+    exact C.
+Qed.
+
+(* ------------------------------------------------------------------ span *)
+Lemma span_app {A} (p : A -> bool) l : fst (span p l) ++ snd (span p l) = l.
+Proof.
+  induction l as [|x t IH]; [reflexivity|]. simpl. destruct (p x); [|reflexivity].
+  destruct (span p t) as [a b]. simpl in *. congruence.
+Qed.
+
+Lemma span_map {A B} (f : A -> B) (p : B -> bool) l :
+  span p (map f l) = (map f (fst (span (fun x => p (f x)) l)), map f (snd (span (fun x => p (f x)) l))).
+Proof.
+  induction l as [|x t IH]; [reflexivity|]. simpl. destruct (p (f x)); [|reflexivity].
+  rewrite IH. destruct (span (fun x0 => p (f x0)) t). reflexivity.
+Qed.
+
+Lemma span_ext_in {A} (p q : A -> bool) l : (forall x, In x l -> p x = q x) -> span p l = span q l.
+Proof.
+  induction l as [|x t IH]; intros H; [reflexivity|]. simpl. rewrite (H x) by (left; reflexivity).
+  rewrite IH by (intros y Hy; apply H; right; exact Hy). reflexivity.
+Qed.
+
+Lemma span_fst_nil_hd {A} (p : A -> bool) x t : fst (span p (x :: t)) = [] -> snd (span p (x :: t)) = x :: t.
+Proof. simpl. destruct (p x); [destruct (span p t); discriminate|reflexivity]. Qed.
+
+(* ------------------------------------------------------------------ the scans of the sorting functions *)
+Section Scan.
+Variable cmp : Z -> Z -> Z.
+
+Lemma scan_fore_spec h vs c itv pre l fuel (valf : id -> Z) :
+  Ring h (c :: pre ++ l) -> l <> [] -> (forall y, In y l -> vget vs y = Some (valf y)) ->
+  (length l < fuel)%nat ->
+  scan_fore cmp h vs c itv (hd c l) fuel =
+    Ok (hd c (snd (span (fun y => Z.ltb 0 (cmp itv (valf y))) l))).
+Proof.
+  revert pre fuel. induction l as [|a l IH]; intros pre fuel R Hne Hv Hf; [congruence|].
+  destruct fuel; [simpl in Hf; lia|]. cbn [scan_fore hd].
+  rewrite (Hv a) by (left; reflexivity). cbn [lift].
+  cbn [span]. rewrite Z.ltb_antisym.
+  destruct (Z.leb (cmp itv (valf a)) 0); cbn [negb]; [reflexivity|].
+  change (c :: pre ++ a :: l) with ((c :: pre) ++ a :: l) in R.
+  rewrite (Ring_next h (c :: pre) a l R). cbn [lift hd].
+  destruct l as [|b l].
+  - cbn [hd span snd]. rewrite N.eqb_refl. reflexivity.
+  - cbn [hd].
+    assert (Hbc : b <> c).
+    { apply Ring_NoDup in R. inversion R; subst. intros ->. apply H1. apply in_or_app. right. right. left. reflexivity. }
+    replace (N.eqb b c) with false by (symmetry; apply N.eqb_neq; exact Hbc).
+    specialize (IH (pre ++ [a]) fuel). rewrite <- app_assoc in IH. cbn [app hd] in IH.
+    rewrite IH; auto.
+    + destruct (span (fun y => Z.ltb 0 (cmp itv (valf y))) (b :: l)). reflexivity.
+    + discriminate.
+    + intros y Hy. apply Hv. right. exact Hy.
+    + simpl in Hf. simpl. lia.
+Qed.
+
+Lemma scan_back_spec h vs c itv l post fuel (valf : id -> Z) :
+  Ring h (c :: l ++ post) -> l <> [] -> (forall y, In y l -> vget vs y = Some (valf y)) ->
+  (length l < fuel)%nat ->
+  scan_back cmp h vs c itv (last l c) fuel =
+    Ok (hd c (snd (span (fun y => Z.ltb 0 (cmp (valf y) itv)) (rev l)))).
+Proof.
+  revert post fuel. induction l as [|a l IH] using rev_ind; intros post fuel R Hne Hv Hf; [congruence|].
+  rewrite app_length in Hf. simpl in Hf. destruct fuel; [lia|].
+  rewrite last_last, rev_app_distr. cbn [scan_back rev app].
+  rewrite (Hv a) by (apply in_or_app; right; left; reflexivity). cbn [lift].
+  cbn [span]. rewrite Z.ltb_antisym.
+  destruct (Z.leb (cmp (valf a) itv) 0); cbn [negb]; [reflexivity|].
+  rewrite <- app_assoc in R. cbn [app] in R.
+  change (c :: l ++ a :: post) with ((c :: l) ++ a :: post) in R.
+  rewrite (Ring_prev h (c :: l) a post R). cbn [lift]. rewrite last_cons_default.
+  destruct (snoc_cases l) as [->|(m & b & ->)].
+  - cbn [last rev span snd hd]. rewrite N.eqb_refl. reflexivity.
+  - rewrite last_last.
+    assert (Hbc : b <> c).
+    { apply Ring_NoDup in R. inversion R; subst. intros ->. apply H1. apply in_or_app. left. apply in_or_app.
+      right. left. reflexivity. }
+    replace (N.eqb b c) with false by (symmetry; apply N.eqb_neq; exact Hbc).
+    specialize (IH (a :: post) fuel). rewrite last_last in IH.
+    rewrite IH; auto.
+    + destruct (span (fun y => Z.ltb 0 (cmp (valf y) itv)) (rev (m ++ [b]))). reflexivity.
+    + destruct m; discriminate.
+    + intros y Hy. apply Hv. apply in_or_app. left. exact Hy.
+    + rewrite app_length. simpl. rewrite app_length in Hf. simpl in Hf. lia.
+Qed.
+End Scan.
+
+(* ------------------------------------------------------------------ the nodes of one ring are rearranged *)
+Lemma permute_master w X s h' xs' :
+  QInv w X -> Permutation xs' (sel s X) -> Ring h' (qaddr s :: xs') ->
+  Frame (w_h w) h' (qaddr s :: sel s X) -> (forall x, live h' x <-> live (w_h w) x) ->
+  QInv (seth w h') (upd s xs' X) /\ abs (seth w h') (upd s xs' X) = upd s (pairs w xs') (abs w X).
+Proof.
+  intros I P R F Lv. set (w' := seth w h').
+  assert (Hq : forall t, getq w' t = getq w t) by (intros []; reflexivity).
+  assert (Hperm : Permutation (allnodes w' (upd s xs' X)) (allnodes w X)).
+  { change (allnodes w' (upd s xs' X)) with (allnodes w (upd s xs' X)).
+    rewrite <- (upd_sel s X) at 2. apply allnodes_upd_perm. exact P. }
+  split.
+  - constructor.
+    + intros t. destruct (bool_cases s t) as [->| ->].
+      * rewrite sel_upd_same. exact R.
+      * rewrite sel_upd_other. eapply Ring_Frame; [apply (qi_ring _ _ I)|exact F|].
+        intros x Hx. eapply QInv_rings_disj'; eauto.
+    + eapply Permutation_NoDup; [symmetry; exact Hperm|apply (qi_nodup _ _ I)].
+    + intros x Hx. eapply Permutation_in in Hx; [|exact Hperm].
+      pose proof (qi_node _ _ I x Hx) as (B & L & V). split; [exact B|]. split; [apply Lv; exact L|exact V].
+    + intros t. rewrite Hq. destruct (bool_cases s t) as [->| ->].
+      * rewrite sel_upd_same, (qi_num _ _ I s), (Permutation_length P). reflexivity.
+      * rewrite sel_upd_other. apply (qi_num _ _ I).
+    + intros t. rewrite Hq. apply (qi_mem _ _ I).
+    + rewrite (Permutation_length Hperm). apply (qi_fresh _ _ I).
+  - rewrite abs_upd. reflexivity.
+Qed.
+
+Lemma QInv_vget w X x : QInv w X -> In x (allnodes w X) -> vget (w_val w) x = Some (val w x).
+Proof.
+  intros I H. destruct (qi_node _ _ I x H) as (_ & _ & V). unfold val. destruct (vget (w_val w) x); congruence.
+Qed.
+
+(* ------------------------------------------------------------------ a_que_sort_fore *)
+Lemma sort_fore_ok cmp w X s :
+  QInv w X ->
+  exists w' xs', q_sort_fore cmp w s = Ok w' /\ trace_ok w w' /\ QInv w' (upd s xs' X) /\
+    abs w' (upd s xs' X) = upd s (sort_fore_spec cmp (sel s (abs w X))) (abs w X).
+Proof.
+  intros I. unfold q_sort_fore. rewrite (qi_num _ _ I s), sel_abs.
+  assert (Hid : QInv w (upd s (sel s X) X) /\ abs w (upd s (sel s X) X) = abs w X)
+    by (rewrite upd_sel; auto).
+  destruct (sel s X) as [|it rest] eqn:Hsel.
+  { cbn [length N.of_nat N.ltb N.compare]. exists w, []. split; [reflexivity|]. split; [apply trace_ok_refl|].
+    destruct Hid as [I' A']. split; [exact I'|]. rewrite abs_upd. reflexivity. }
+  destruct rest as [|r0 rest'] eqn:Hrest.
+  { cbn. exists w, [it]. split; [reflexivity|]. split; [apply trace_ok_refl|].
+    destruct Hid as [I' A']. split; [exact I'|]. rewrite abs_upd. reflexivity. }
+  rewrite <- Hrest in *. assert (Hrne : rest <> []) by (rewrite Hrest; discriminate). clear Hrest r0 rest'.
+  replace (N.ltb 1 (N.of_nat (length (it :: rest)))) with true.
+  2:{ symmetry. apply N.ltb_lt. destruct rest; [congruence|]. simpl length. lia. }
+  pose proof (qi_ring _ _ I s) as R. rewrite Hsel in R.
+  set (c := qaddr s) in *. set (h := w_h w) in *.
+  rewrite (Ring_next h [] c (it :: rest) R). cbn [lift hd].
+  rewrite (Ring_next h [c] it rest R). cbn [lift hd].
+  assert (Hit : In it (allnodes w X)) by (eapply allnodes_sel; rewrite Hsel; left; reflexivity).
+  rewrite (QInv_vget w X it I Hit). cbn [lift].
+  assert (Hfuel : (length rest < fuel_of w)%nat).
+  { pose proof (QInv_fuel w X s I) as Hf. rewrite Hsel in Hf. simpl in Hf. lia. }
+  rewrite (scan_fore_spec cmp h (w_val w) c (val w it) [it] rest (fuel_of w) (val w) R Hrne); auto.
+  2:{ intros y Hy. apply (QInv_vget w X y I). eapply allnodes_sel. rewrite Hsel. right. exact Hy. }
+  set (p := fun y => Z.ltb 0 (cmp (val w it) (val w y))).
+  pose proof (span_app p rest) as Happ.
+  destruct (span p rest) as [lo hi] eqn:Hspan. cbn [fst snd] in *.
+  (* the abstract result *)
+  assert (Hspec : sort_fore_spec cmp (pairs w (it :: rest)) = pairs w (lo ++ it :: hi)).
+  { unfold sort_fore_spec, pairs. cbn [map snd]. rewrite span_map. cbn [snd]. fold p. rewrite Hspan.
+    cbn [fst snd]. rewrite map_app. reflexivity. }
+  rewrite Hspec.
+  destruct lo as [|a lo'] eqn:Hlo.
+  - (* already in place *)
+    cbn [app] in Happ. subst hi. rewrite N.eqb_refl.
+    exists w, (it :: rest). split; [reflexivity|]. split; [apply trace_ok_refl|].
+    destruct Hid as [I' A']. split; [exact I'|]. rewrite abs_upd. reflexivity.
+  - rewrite <- Hlo in *. assert (Hlone : lo <> []) by (rewrite Hlo; discriminate). clear Hlo a lo'.
+    subst rest.
+    (* view the ring from it:  it :: lo ++ (hi ++ [c]) *)
+    set (H2 := hi ++ [c]).
+    assert (H2ne : H2 <> []) by (unfold H2; destruct hi; discriminate).
+    assert (R' : Ring h ([it] ++ lo ++ H2 ++ [])).
+    { apply (Ring_rot h [c] (it :: lo ++ hi)) in R. unfold H2. rewrite app_nil_r. cbn [app] in *.
+      rewrite <- app_assoc in R. exact R. }
+    assert (Hhd2 : hd0 H2 = hd c hi) by (unfold H2; apply hd_snoc).
+    assert (Hl2 : last H2 0 = c) by (unfold H2; apply last_last).
+    assert (ND : NoDup (it :: lo ++ H2)).
+    { apply Ring_NoDup in R'. rewrite app_nil_r in R'. exact R'. }
+    (* the loop stopped somewhere behind lo *)
+    assert (Hne : hd c hi <> hd c (lo ++ hi)).
+    { rewrite <- Hhd2. destruct lo as [|a lo']; [congruence|]. cbn [app hd]. intros E.
+      pose proof ND as ND0. apply NoDup_cons_iff in ND0. destruct ND0 as [_ ND2]. cbn [app] in ND2.
+      apply NoDup_cons_iff in ND2. destruct ND2 as [Hn _].
+      apply Hn. apply in_or_app. right. rewrite <- E. apply in_hd. exact H2ne. }
+    replace (N.eqb (hd c hi) (hd c (lo ++ hi))) with false by (symmetry; apply N.eqb_neq; exact Hne).
+    pose proof (Ring_seam h [it] lo H2 [] R' Hlone H2ne) as [En_lo Ep_h2].
+    assert (Ep_it : rd_prev h it = Some c).
+    { pose proof (Ring_seam_wrap h [it] lo H2) as W. rewrite app_nil_r in R'.
+      destruct (W R') as [_ Ep]; [discriminate|exact H2ne|]. rewrite Hl2 in Ep. exact Ep. }
+    assert (En_it : rd_next h it = Some (hd0 lo)).
+    { apply (Ring_seam h [] [it] lo (H2 ++ [])); auto. discriminate. }
+    rewrite <- Hhd2, Ep_h2. cbn [lift]. rewrite Ep_it. cbn [lift].
+    assert (Ehd : hd c (lo ++ hi) = hd0 lo) by (destruct lo; [congruence|reflexivity]). rewrite Ehd.
+    (* three links *)
+    assert (S0 : Soup h [H2; lo; [it]]).
+    { pose proof (Ring_Soup _ _ R') as S. rewrite app_nil_r in S. apply Soup_split in S.
+      apply (Soup_perm h _ [lo ++ H2; [it]]) in S; [|perm_tac]. apply Soup_split in S.
+      apply (Soup_perm h _ [H2; lo; [it]]) in S; [|perm_tac]. exact S. }
+    destruct (Soup_join_exec h H2 lo [[it]] S0 H2ne Hlone) as (h1 & L1 & S1 & P1). rewrite Hl2 in L1, P1.
+    rewrite L1. cbn [lift].
+    assert (Hlast_c : last lo 0 <> c).
+    { intros E. apply NoDup_cons_iff in ND. destruct ND as [_ ND]. eapply (NoDup_app_disj lo H2 c); eauto.
+      - rewrite <- E. apply in_last; auto.
+      - unfold H2. apply in_or_app. right. left. reflexivity. }
+    rewrite (lp_next_other _ _ _ _ P1) by exact Hlast_c. rewrite En_lo. cbn [lift].
+    assert (S1' : Soup h1 [[it]; H2 ++ lo]) by (apply (Soup_perm h1 [H2 ++ lo; [it]]); [perm_tac|exact S1]).
+    assert (H2lo : H2 ++ lo <> []) by (destruct H2; [congruence|discriminate]).
+    destruct (Soup_join_exec h1 [it] (H2 ++ lo) [] S1' ltac:(discriminate) H2lo) as (h2 & L2 & S2 & P2).
+    rewrite hd_app_nonnil in L2, P2 by exact H2ne. cbn [last] in L2, P2.
+    rewrite L2. cbn [lift].
+    destruct (Soup_close_exec h2 ([it] ++ H2 ++ lo) [] S2 ltac:(discriminate)) as (h3 & L3 & S3 & Ed3 & P3).
+    rewrite !app_assoc, last_app_nonnil in L3, P3, Ed3 by exact Hlone. cbn [app hd] in L3, P3, Ed3.
+    rewrite L3. cbn [lift].
+    assert (R3 : Ring h3 (c :: lo ++ it :: hi)).
+    { assert (R3' : Ring h3 ((it :: H2) ++ lo)).
+      { apply (Ring_intro _ _ 0); auto; [discriminate|]. rewrite last_app_nonnil by exact Hlone. exact Ed3. }
+      unfold H2 in R3'.
+      replace ((it :: hi ++ [c]) ++ lo) with ((it :: hi) ++ (c :: lo)) in R3'
+        by (cbn [app]; rewrite <- app_assoc; reflexivity).
+      apply Ring_rot in R3'. exact R3'. }
+    assert (F : Frame h h3 (c :: it :: lo ++ hi)).
+    { assert (Ic : In c (c :: it :: lo ++ hi)) by (left; reflexivity).
+      assert (Iit : In it (c :: it :: lo ++ hi)) by (right; left; reflexivity).
+      assert (Ihl : In (hd0 lo) (c :: it :: lo ++ hi)) by (right; right; apply in_hd_app_l; auto).
+      assert (Ill : In (last lo 0) (c :: it :: lo ++ hi)) by (right; right; apply in_last_app_l; auto).
+      assert (Ih2 : In (hd0 H2) (c :: it :: lo ++ hi)).
+      { rewrite Hhd2. destruct hi; [left; reflexivity|]. right. right. apply in_or_app. right. left. reflexivity. }
+      intros x Hx.
+      rewrite (LinkPost_Frame_in _ _ _ _ _ P3 Ill Iit x Hx), (LinkPost_Frame_in _ _ _ _ _ P2 Iit Ih2 x Hx),
+              (LinkPost_Frame_in _ _ _ _ _ P1 Ic Ihl x Hx). reflexivity. }
+    assert (Lv : forall x, live h3 x <-> live h x).
+    { intros x. rewrite (lp_live _ _ _ _ P3), (lp_live _ _ _ _ P2). apply (lp_live _ _ _ _ P1). }
+    destruct (permute_master w X s h3 (lo ++ it :: hi) I) as [I' A']; auto.
+    { rewrite Hsel. symmetry. apply Permutation_middle. }
+    { rewrite Hsel. exact F. }
+    exists (seth w h3), (lo ++ it :: hi). split; [reflexivity|]. split; [intros Hnf; split; [exact Hnf|reflexivity]|].
+    split; [exact I'|exact A'].
+Qed.
+
+(* ------------------------------------------------------------------ a_que_sort_back / a_que_push_sort *)
+Lemma hd_rev {A} (l : list A) d : hd d (rev l) = last l d.
+Proof.
+  destruct (snoc_cases l) as [->|(m & z & ->)]; [reflexivity|]. rewrite rev_app_distr, last_last. reflexivity.
+Qed.
+
+Lemma pairs_rev w l : rev (pairs w l) = pairs w (rev l).
+Proof. unfold pairs. symmetry. apply map_rev. Qed.
+
+(* ins_back on the abstract side = cutting the address list at the place the backward scan finds *)
+Lemma ins_back_pairs cmp w x xv l :
+  let sp := span (fun y => Z.ltb 0 (cmp (val w y) xv)) (rev l) in
+  ins_back cmp (x, xv) (pairs w l) = pairs w (rev (snd sp)) ++ (x, xv) :: pairs w (rev (fst sp)) /\
+  l = rev (snd sp) ++ rev (fst sp).
+Proof.
+  intros sp. split.
+  - unfold ins_back. rewrite pairs_rev. unfold pairs at 1. rewrite span_map. cbn [snd].
+    fold sp. destruct sp as [a b]. cbn [fst snd]. rewrite <- !map_rev. reflexivity.
+  - pose proof (span_app (fun y => Z.ltb 0 (cmp (val w y) xv)) (rev l)) as H. fold sp in H.
+    rewrite <- rev_app_distr, H, rev_involutive. reflexivity.
+Qed.
+
+(* link(n, first L); link(last L, n): n becomes the predecessor of the first node of the ring L *)
+Lemma insert_after h L n :
+  Ring h L -> live h n -> ~ In n L ->
+  exists h1 h2, l_link h n (hd0 L) = Some h1 /\ l_link h1 (last L 0) n = Some h2 /\ Ring h2 (n :: L) /\
+    rd_next h1 (last L 0) = rd_next h (last L 0) /\
+    Frame h h2 (n :: L) /\ (forall x, live h2 x <-> live h x).
+Proof.
+  intros R Ln Hn. pose proof (Ring_nonnil _ _ R) as HL.
+  assert (S0 : Soup h [[n]; L]).
+  { apply (Soup_perm h [L; [n]]); [perm_tac|]. apply Soup_ring_and_node; auto. }
+  destruct (Soup_join_exec h [n] L [] S0 ltac:(discriminate) HL) as (h1 & L1 & S1 & P1). cbn [last] in L1, P1.
+  destruct (Soup_close_exec h1 ([n] ++ L) [] S1 ltac:(discriminate)) as (h2 & L2 & S2 & Ed & P2).
+  rewrite last_app_nonnil in L2, P2, Ed by exact HL. cbn [app hd] in L2, P2, Ed.
+  exists h1, h2. split; [exact L1|]. split; [exact L2|]. split; [|split; [|split]].
+  - apply (Ring_intro _ _ 0); auto; [discriminate|].
+    change (n :: L) with ([n] ++ L). rewrite last_app_nonnil by exact HL. exact Ed.
+  - apply (lp_next_other _ _ _ _ P1). intros E. apply Hn. rewrite <- E. apply in_last. exact HL.
+  - assert (I1 : In n (n :: L)) by (left; reflexivity).
+    assert (I2 : In (hd0 L) (n :: L)) by (right; apply in_hd; exact HL).
+    assert (I3 : In (last L 0) (n :: L)) by (right; apply in_last; exact HL).
+    intros x Hx. rewrite (LinkPost_Frame_in _ _ _ _ _ P2 I3 I1 x Hx), (LinkPost_Frame_in _ _ _ _ _ P1 I1 I2 x Hx).
+    reflexivity.
+  - intros x. rewrite (lp_live _ _ _ _ P2). apply (lp_live _ _ _ _ P1).
+Qed.
+
+Lemma sort_back_ok cmp w X s :
+  QInv w X ->
+  exists w' xs', q_sort_back cmp w s = Ok w' /\ trace_ok w w' /\ QInv w' (upd s xs' X) /\
+    abs w' (upd s xs' X) = upd s (sort_back_spec cmp (sel s (abs w X))) (abs w X).
+Proof.
+  intros I. unfold q_sort_back. rewrite (qi_num _ _ I s), sel_abs.
+  assert (Hid : QInv w (upd s (sel s X) X)) by (rewrite upd_sel; auto).
+  destruct (snoc_cases (sel s X)) as [Hsel|(rest & it & Hsel)]; rewrite Hsel in *.
+  { cbn [length N.of_nat N.ltb N.compare]. exists w, []. split; [reflexivity|]. split; [apply trace_ok_refl|].
+    split; [exact Hid|]. rewrite abs_upd. reflexivity. }
+  destruct rest as [|r0 rest'] eqn:Hrest.
+  { cbn. exists w, [it]. split; [reflexivity|]. split; [apply trace_ok_refl|].
+    split; [exact Hid|]. rewrite abs_upd. reflexivity. }
+  rewrite <- Hrest in *. assert (Hrne : rest <> []) by (rewrite Hrest; discriminate). clear Hrest r0 rest'.
+  replace (N.ltb 1 (N.of_nat (length (rest ++ [it])))) with true.
+  2:{ symmetry. apply N.ltb_lt. rewrite app_length. destruct rest; [congruence|]. simpl length. lia. }
+  pose proof (qi_ring _ _ I s) as R. rewrite Hsel in R.
+  set (c := qaddr s) in *. set (h := w_h w) in *.
+  rewrite (Ring_prev h [] c (rest ++ [it]) R). cbn [lift last]. rewrite last_last.
+  assert (R1 : Ring h ((c :: rest) ++ it :: [])) by exact R.
+  rewrite (Ring_prev h (c :: rest) it [] R1). cbn [lift]. rewrite last_cons_default.
+  assert (Hit : In it (allnodes w X)).
+  { eapply allnodes_sel; rewrite Hsel; apply in_or_app; right; left; reflexivity. }
+  rewrite (QInv_vget w X it I Hit). cbn [lift].
+  assert (Hfuel : (length rest < fuel_of w)%nat).
+  { pose proof (QInv_fuel w X s I) as Hf. rewrite Hsel, app_length in Hf. simpl in Hf. lia. }
+  rewrite (scan_back_spec cmp h (w_val w) c (val w it) rest [it] (fuel_of w) (val w) R Hrne); auto.
+  2:{ intros y Hy. apply (QInv_vget w X y I). eapply allnodes_sel. rewrite Hsel. apply in_or_app. left. exact Hy. }
+  (* the abstract result *)
+  destruct (ins_back_pairs cmp w it (val w it) rest) as [Hspec Hcut].
+  set (sp := span (fun y => Z.ltb 0 (cmp (val w y) (val w it))) (rev rest)) in *.
+  set (lo := rev (snd sp)) in *. set (hi := rev (fst sp)) in *.
+  assert (Hspec' : sort_back_spec cmp (pairs w (rest ++ [it])) = pairs w (lo ++ it :: hi)).
+  { unfold sort_back_spec. rewrite pairs_rev, rev_app_distr. cbn [rev app pairs map].
+    fold (pairs w (rev rest)). rewrite <- pairs_rev, rev_involutive, Hspec, pairs_app. reflexivity. }
+  rewrite Hspec'.
+  assert (Hat1 : hd c (snd sp) = last lo c) by (unfold lo; rewrite <- hd_rev, rev_involutive; reflexivity).
+  rewrite Hat1.
+  clearbody lo hi. clear Hspec.
+  destruct hi as [|b0 hr] eqn:Hhi.
+  - (* already in place *)
+    rewrite app_nil_r in Hcut. rewrite <- Hcut, N.eqb_refl.
+    exists w, (rest ++ [it]). split; [reflexivity|]. split; [apply trace_ok_refl|].
+    split; [exact Hid|]. rewrite abs_upd. reflexivity.
+  - rewrite <- Hhi in *. assert (Hhine : hi <> []) by (rewrite Hhi; discriminate).
+    clear Hhi b0 hr. rewrite Hcut in R, R1, Hsel |- *.
+    assert (R' : Ring h ([] ++ (c :: lo) ++ hi ++ [it])).
+    { cbn [app]. rewrite <- app_assoc in R. exact R. }
+    assert (ND : NoDup ((c :: lo) ++ hi ++ [it])) by (apply Ring_NoDup in R'; exact R').
+    pose proof (Ring_seam h [] (c :: lo) hi [it] R' ltac:(discriminate) Hhine) as [En_at1 Ep_at2].
+    assert (R'' : Ring h ((c :: lo) ++ hi ++ [it] ++ [])) by (rewrite app_nil_r; exact R').
+    pose proof (Ring_seam h (c :: lo) hi [it] [] R'' Hhine ltac:(discriminate)) as [En_itp Ep_it].
+    cbn [hd] in En_itp, Ep_it.
+    rewrite last_cons_default in En_at1, Ep_at2.
+    assert (Hlast : last (lo ++ hi) c = last hi 0).
+    { rewrite last_app_nonnil by exact Hhine. destruct (snoc_cases hi) as [->|(m & z & ->)]; [congruence|].
+      rewrite !last_last. reflexivity. }
+    rewrite Hlast.
+    assert (Hne : last lo c <> last hi 0).
+    { intros E. apply (NoDup_app_disj (c :: lo) (hi ++ [it]) (last hi 0)); auto.
+      - rewrite <- E. rewrite <- last_cons_default with (d := 0). apply in_last. discriminate.
+      - apply in_last_app_l. exact Hhine. }
+    replace (N.eqb (last lo c) (last hi 0)) with false by (symmetry; apply N.eqb_neq; exact Hne).
+    rewrite En_at1. cbn [lift].
+    assert (En_it : rd_next h it = Some c).
+    { exact (Ring_next h (c :: lo ++ hi) it [] R1). }
+    rewrite En_it. cbn [lift].
+    (* three links *)
+    assert (S0 : Soup h [hi; c :: lo; [it]]).
+    { pose proof (Ring_Soup _ _ R') as S. cbn [app] in S.
+      change (c :: lo ++ hi ++ [it]) with ((c :: lo) ++ hi ++ [it]) in S. apply Soup_split in S.
+      apply (Soup_perm h _ [hi ++ [it]; c :: lo]) in S; [|perm_tac]. apply Soup_split in S.
+      apply (Soup_perm h _ [hi; c :: lo; [it]]) in S; [|perm_tac]. exact S. }
+    destruct (Soup_join_exec h hi (c :: lo) [[it]] S0 Hhine ltac:(discriminate)) as (h1 & L1 & S1 & P1).
+    cbn [hd] in L1, P1. rewrite L1. cbn [lift].
+    assert (Hhd_c : hd0 hi <> c).
+    { intros E. apply (NoDup_app_disj (c :: lo) (hi ++ [it]) c); auto; [left; reflexivity|].
+      rewrite <- E. apply in_hd_app_l. exact Hhine. }
+    rewrite (lp_prev_other _ _ _ _ P1) by exact Hhd_c. rewrite Ep_at2. cbn [lift].
+    assert (Hne1 : hi ++ c :: lo <> []) by (destruct hi; discriminate).
+    destruct (Soup_join_exec h1 (hi ++ c :: lo) [it] [] S1 Hne1 ltac:(discriminate)) as (h2 & L2 & S2 & P2).
+    rewrite last_app_nonnil, last_cons_default in L2, P2 by discriminate. cbn [hd] in L2, P2.
+    rewrite L2. cbn [lift].
+    destruct (Soup_close_exec h2 ((hi ++ c :: lo) ++ [it]) [] S2) as (h3 & L3 & S3 & Ed3 & P3).
+    { destruct hi; discriminate. }
+    rewrite last_last in L3, P3, Ed3. rewrite <- app_assoc, hd_app_nonnil in L3, P3, Ed3 by exact Hhine.
+    rewrite L3. cbn [lift].
+    assert (R3 : Ring h3 (c :: lo ++ it :: hi)).
+    { assert (R3' : Ring h3 (hi ++ (c :: lo) ++ [it])).
+      { apply (Ring_intro _ _ 0); auto.
+        - rewrite <- app_assoc in S3. exact S3.
+        - destruct hi; discriminate.
+        - rewrite app_assoc, last_last. rewrite <- app_assoc, hd_app_nonnil by exact Hhine. exact Ed3. }
+      apply Ring_rot in R3'. rewrite <- app_assoc in R3'. exact R3'. }
+    assert (F : Frame h h3 (c :: lo ++ hi ++ [it])).
+    { assert (Ic : In c (c :: lo ++ hi ++ [it])) by (left; reflexivity).
+      assert (Iit : In it (c :: lo ++ hi ++ [it])).
+      { right. apply in_or_app. right. apply in_or_app. right. left. reflexivity. }
+      assert (Ihh : In (hd0 hi) (c :: lo ++ hi ++ [it])).
+      { right. apply in_or_app. right. apply in_hd_app_l. exact Hhine. }
+      assert (Ilh : In (last hi 0) (c :: lo ++ hi ++ [it])).
+      { right. apply in_or_app. right. apply in_last_app_l. exact Hhine. }
+      assert (Ill : In (last lo c) (c :: lo ++ hi ++ [it])).
+      { rewrite <- last_cons_default with (d := 0). change (c :: lo ++ hi ++ [it]) with ((c :: lo) ++ hi ++ [it]).
+        apply in_last_app_l. discriminate. }
+      intros x Hx.
+      rewrite (LinkPost_Frame_in _ _ _ _ _ P3 Iit Ihh x Hx), (LinkPost_Frame_in _ _ _ _ _ P2 Ill Iit x Hx),
+              (LinkPost_Frame_in _ _ _ _ _ P1 Ilh Ic x Hx). reflexivity. }
+    assert (Lv : forall x, live h3 x <-> live h x).
+    { intros x. rewrite (lp_live _ _ _ _ P3), (lp_live _ _ _ _ P2). apply (lp_live _ _ _ _ P1). }
+    destruct (permute_master w X s h3 (lo ++ it :: hi) I) as [I' A']; auto.
+    { rewrite Hsel. rewrite <- app_assoc. apply Permutation_app_head.
+      apply (Permutation_cons_append hi it). }
+    { rewrite Hsel. rewrite <- app_assoc. exact F. }
+    exists (seth w h3), (lo ++ it :: hi). split; [reflexivity|]. split; [intros Hnf; split; [exact Hnf|reflexivity]|].
+    split; [exact I'|exact A'].
+Qed.
+
+Lemma push_sort_ok cmp w X s key :
+  QInv w X ->
+  exists w' n, q_push_sort cmp w s key = Ok (w', n) /\ trace_ok w w' /\
+    ((n = 0 /\ QInv w' X /\ abs w' X = abs w X /\ failed w' = true) \/
+     (n <> 0 /\ ~ In n (addrs (abs w X)) /\ exists xs',
+      QInv w' (upd s xs' X) /\
+      abs w' (upd s xs' X) = upd s (ins_back cmp (n, key) (sel s (abs w X))) (abs w X))).
+Proof.
+  intros I. unfold q_push_sort. pose proof (qi_ring _ _ I s) as R0.
+  rewrite (Ring_prev _ [] (qaddr s) (sel s X) R0). cbn [lift last].
+  destruct (new_spec w X s I) as (w1 & n & E & [(Hn & Hc & Hf & Hs)|(Hn & M & Hval & Hf & Hs)]); rewrite E.
+  { subst n. cbn [N.eqb]. exists w1, 0. split; [reflexivity|]. split; [intros H; contradiction|].
+    left. split; [reflexivity|]. split; [eapply same_core_QInv; eauto|]. split; [apply same_core_abs; auto|auto]. }
+  replace (N.eqb n 0) with false by (symmetry; apply N.eqb_neq; exact Hn).
+  rewrite (mn_num_s _ _ _ _ M).
+  pose proof (mn_ring _ _ _ _ M s) as R. set (c := qaddr s) in *. set (h := w_h w1) in *.
+  pose proof (QMidNew_notin _ _ _ _ M) as Hnot. fold c in Hnot.
+  assert (Ln : live h n) by (apply (mn_node _ _ _ _ M); left; reflexivity).
+  destruct (ins_back_pairs cmp w n key (sel s X)) as [Hspec Hcut].
+  set (sp := span (fun y => Z.ltb 0 (cmp (val w y) key)) (rev (sel s X))) in *.
+  set (lo := rev (snd sp)) in *. set (hi := rev (fst sp)) in *.
+  assert (Hat : hd c (snd sp) = last lo c) by (unfold lo; rewrite <- hd_rev, rev_involutive; reflexivity).
+  (* where the scan stops *)
+  assert (Escan : (if N.ltb 1 (N.of_nat (length (sel s X)) + 1)
+                   then scan_back cmp h (w_val w1) c key (last (sel s X) c) (fuel_of w1)
+                   else Ok (last (sel s X) c)) = Ok (last lo c)).
+  { assert (Hc' : sel s X = [] \/ sel s X <> []) by (destruct (sel s X); [left; reflexivity|right; discriminate]).
+    destruct Hc' as [Hnil|Hxne].
+    - unfold lo, sp. rewrite Hnil. cbn. reflexivity.
+    - replace (N.ltb 1 (N.of_nat (length (sel s X)) + 1)) with true.
+      2:{ symmetry. apply N.ltb_lt. destruct (sel s X); [congruence|]. simpl length. lia. }
+      assert (Hfuel : (length (sel s X) < fuel_of w1)%nat).
+      { pose proof (mn_fresh _ _ _ _ M) as F. unfold fuel_of.
+        assert (length (sel s X) <= length (allnodes w1 X))%nat.
+        { unfold allnodes. rewrite !app_length. destruct s; simpl; lia. }
+        simpl length in F. lia. }
+      assert (R1 : Ring h (c :: sel s X ++ [])) by (rewrite app_nil_r; exact R).
+      rewrite (scan_back_spec cmp h (w_val w1) c key (sel s X) [] (fuel_of w1) (val w1) R1 Hxne); auto.
+      + rewrite (span_ext_in _ (fun y => Z.ltb 0 (cmp (val w y) key))).
+        * fold sp. rewrite Hat. reflexivity.
+        * intros y Hy. rewrite Hval; [reflexivity|]. intros ->. apply Hnot. right. apply in_rev. exact Hy.
+      + intros y Hy. assert (V : vget (w_val w1) y <> None).
+        { apply (mn_node _ _ _ _ M). right. eapply allnodes_sel; eauto. }
+        unfold val. destruct (vget (w_val w1) y); congruence. }
+  rewrite Escan. clearbody lo hi. clear Escan Hat.
+  (* the ring seen from the first node behind the insertion point *)
+  set (L := hi ++ c :: lo).
+  assert (RL : Ring h L).
+  { unfold L. rewrite Hcut in R. apply (Ring_rot h (c :: lo) hi). exact R. }
+  assert (HlastL : last L 0 = last lo c).
+  { unfold L. rewrite last_app_nonnil by discriminate. apply last_cons_default. }
+  assert (HnL : ~ In n L).
+  { unfold L. intros H. apply Hnot. rewrite Hcut. apply in_app_or in H.
+    change (c :: lo ++ hi) with ((c :: lo) ++ hi). apply in_or_app. tauto. }
+  destruct (insert_after h L n RL Ln HnL) as (h1 & h2 & L1 & L2 & R2 & En1 & F & Lv).
+  pose proof (Ring_wrap _ _ 0 RL) as [Enx _]. rewrite HlastL in *.
+  rewrite Enx. cbn [lift]. rewrite L1. cbn [lift]. rewrite L2. cbn [lift].
+  eexists _, n. split; [reflexivity|].
+  assert (R2' : Ring h2 (c :: lo ++ n :: hi)).
+  { unfold L in R2. change (n :: hi ++ c :: lo) with ((n :: hi) ++ (c :: lo)) in R2.
+    apply Ring_rot in R2. exact R2. }
+  destruct (insert_master w X s w1 n h2 lo hi key M Hval Hcut R2') as (I' & A' & Nn); auto.
+  { eapply Frame_incl; eauto. fold c. rewrite Hcut. unfold L. intros x [<-|Hx]; [left; reflexivity|].
+    right. apply in_app_or in Hx. change (c :: lo ++ hi) with ((c :: lo) ++ hi). apply in_or_app. tauto. }
+  split; [|right; split; [exact Hn|split; [exact Nn|exists (lo ++ n :: hi); split; [exact I'|rewrite sel_abs, Hspec; exact A']]]].
+  intros H. split; [apply Hs; exact H|exact Hf].
+Qed.
+
+(* ------------------------------------------------------------------ a_que_swap_ (repaired): heap level *)
+Definition swap_fix (h : dheap) (l r : id) : option dheap :=
+  do ln <- rd_next h l;
+  if N.eqb ln r then (do h1 <- l_del_node h l; l_add_next h1 r l)
+  else do rn <- rd_next h r;
+       if N.eqb rn l then (do h1 <- l_del_node h r; l_add_next h1 l r) else l_swap_node h l r.
+
+Lemma q_swap_elem_eq w l r :
+  q_swap_elem w l r = match swap_fix (w_h w) l r with Some h' => Ok (seth w h') | None => Fault end.
+Proof.
+  unfold q_swap_elem, swap_fix. destruct (rd_next (w_h w) l) as [ln|]; cbn [lift]; [|reflexivity].
+  destruct (N.eqb ln r).
+  - destruct (l_del_node (w_h w) l) as [h1|]; cbn [lift]; [|reflexivity].
+    destruct (l_add_next h1 r l); reflexivity.
+  - destruct (rd_next (w_h w) r) as [rn|]; cbn [lift]; [|reflexivity].
+    destruct (N.eqb rn l).
+    + destruct (l_del_node (w_h w) r) as [h1|]; cbn [lift]; [|reflexivity].
+      destruct (l_add_next h1 l r); reflexivity.
+    + destruct (l_swap_node (w_h w) l r); reflexivity.
+Qed.
+
+Lemma neqb_false a b : a <> b -> N.eqb a b = false.
+Proof. intros H. apply N.eqb_neq. exact H. Qed.
+
+(* both nodes in one ring, seen from l:  l :: a ++ r :: b  becomes  r :: a ++ l :: b *)
+Lemma swap_in_ring h l a r b :
+  Ring h (l :: a ++ r :: b) -> a ++ b <> [] ->
+  exists h', swap_fix h l r = Some h' /\ Ring h' (r :: a ++ l :: b) /\
+    Frame h h' (l :: a ++ r :: b) /\ (forall x, live h' x <-> live h x).
+Proof.
+  intros R Hab. pose proof (Ring_NoDup _ _ R) as ND. unfold swap_fix.
+  destruct a as [|a0 a'].
+  - (* l -> r adjacent *)
+    cbn [app] in *. assert (Hb : b <> []) by exact Hab.
+    rewrite (Ring_next h [] l (r :: b) R). cbn [hd]. rewrite N.eqb_refl.
+    destruct (del_node_spec h [] l (r :: b) R) as (h1 & E1 & R1 & D1 & F1 & L1); [discriminate|].
+    cbn [app] in *. rewrite E1.
+    assert (Ll : live h1 l) by (apply L1; eapply Ring_live; eauto; left; reflexivity).
+    assert (Hl : ~ In l (r :: b)) by (apply NoDup_cons_iff in ND; tauto).
+    destruct (add_next_spec h1 r b l R1 Ll Hl) as (h2 & E2 & R2 & F2 & L2).
+    exists h2. split; [exact E2|]. split; [exact R2|]. split.
+    + eapply Frame_incl; [eapply Frame_trans; eauto|]. intros x Hx. apply in_app_or in Hx.
+      destruct Hx as [Hx|[<-|[<-|[<-|[]]]]]; simpl; auto. destruct b; simpl; auto.
+    + intros x. rewrite L2. apply L1.
+  - set (a := a0 :: a') in *. assert (Ha : a <> []) by discriminate.
+    assert (Hln : rd_next h l = Some (hd0 a)) by (apply (Ring_next h [] l (a ++ r :: b) R)).
+    rewrite Hln. 
+    assert (Hne1 : hd0 a <> r).
+    { intros E. apply NoDup_cons_iff in ND. destruct ND as [_ ND]. apply NoDup_remove_2 in ND. apply ND.
+      apply in_or_app. left. rewrite <- E. apply in_hd. exact Ha. }
+    rewrite (neqb_false _ _ Hne1).
+    destruct b as [|b0 b'].
+    + (* r -> l adjacent (through the end of the list) *)
+      assert (R0 : Ring h ((l :: a) ++ r :: [])) by exact R.
+      rewrite (Ring_next h (l :: a) r [] R0). cbn [hd]. rewrite N.eqb_refl.
+      destruct (del_node_spec h (l :: a) r [] R0) as (h1 & E1 & R1 & D1 & F1 & L1); [discriminate|].
+      rewrite app_nil_r in *. rewrite E1.
+      assert (Lr : live h1 r).
+      { apply L1. eapply Ring_live; eauto. right. apply in_or_app. right. left. reflexivity. }
+      assert (Hr : ~ In r (l :: a)).
+      { change (l :: a ++ [r]) with ((l :: a) ++ [r]) in ND. intros H. eapply NoDup_app_disj; eauto. left; reflexivity. }
+      destruct (add_next_spec h1 l a r R1 Lr Hr) as (h2 & E2 & R2 & F2 & L2).
+      exists h2. split; [exact E2|]. split; [|split].
+      * apply (Ring_rot h2 [l] (r :: a)) in R2. exact R2.
+      * eapply Frame_incl; [eapply Frame_trans; eauto|]. intros x Hx. apply in_app_or in Hx.
+        change (l :: a ++ [r]) with ((l :: a) ++ [r]). apply in_or_app.
+        destruct Hx as [Hx|[<-|[<-|[<-|[]]]]]; simpl; auto.
+      * intros x. rewrite L2. apply L1.
+    + set (b := b0 :: b') in *. assert (Hb : b <> []) by discriminate.
+      assert (R0 : Ring h ((l :: a) ++ r :: b)) by exact R.
+      rewrite (Ring_next h (l :: a) r b R0).
+      assert (Hne2 : hd (hd r (l :: a)) b <> l).
+      { unfold b. cbn [hd]. intros E. apply NoDup_cons_iff in ND. destruct ND as [ND _]. apply ND.
+        apply in_or_app. right. right. left. exact E. }
+      rewrite (neqb_false _ _ Hne2).
+      apply (swap_node_same_ring h l a r b R Ha Hb).
+Qed.
+
+Lemma swap_two h l A r B :
+  Ring h (l :: A) -> Ring h (r :: B) -> Soup h [l :: A; r :: B] -> A <> [] -> B <> [] ->
+  exists h', swap_fix h l r = Some h' /\ Ring h' (r :: A) /\ Ring h' (l :: B) /\
+    Frame h h' ((l :: A) ++ r :: B) /\ (forall x, live h' x <-> live h x).
+Proof.
+  intros Ra Rb S HA HB. unfold swap_fix.
+  rewrite (Ring_next h [] l A Ra). cbn [hd].
+  assert (Hne1 : hd l A <> r).
+  { intros E. apply (concat_disj [l :: A; r :: B] 0%nat 1%nat (l :: A) (r :: B) r (Soup_NoDup _ _ S)); auto.
+    - right. rewrite <- E. destruct A; [congruence|left; reflexivity].
+    - left; reflexivity. }
+  rewrite (neqb_false _ _ Hne1). rewrite (Ring_next h [] r B Rb). cbn [hd].
+  assert (Hne2 : hd r B <> l).
+  { intros E. apply (concat_disj [l :: A; r :: B] 0%nat 1%nat (l :: A) (r :: B) l (Soup_NoDup _ _ S)); auto.
+    - left; reflexivity.
+    - right. rewrite <- E. destruct B; [congruence|left; reflexivity]. }
+  rewrite (neqb_false _ _ Hne2).
+  apply (swap_node_two_rings h l A r B Ra Rb S HA HB).
+Qed.
+
+Lemma swap_same h l A :
+  Ring h (l :: A) -> A <> [] ->
+  exists h', swap_fix h l l = Some h' /\ Ring h' (l :: A) /\ Frame h h' (l :: A) /\ (forall x, live h' x <-> live h x).
+Proof.
+  intros R HA. unfold swap_fix. rewrite (Ring_next h [] l A R). cbn [hd].
+  assert (Hne : hd l A <> l).
+  { intros E. apply Ring_NoDup in R. apply NoDup_cons_iff in R. apply (proj1 R). rewrite <- E.
+    destruct A; [congruence|left; reflexivity]. }
+  rewrite (neqb_false _ _ Hne). apply (swap_node_self h l A R).
+Qed.
+
+(* ------------------------------------------------------------------ exchanging two addresses in lists *)
+Definition swap_ids (l r : id) (xs : list id) : list id :=
+  map (fun x => if N.eqb x l then r else if N.eqb x r then l else x) xs.
+
+Lemma swap_ids_notin l r xs : ~ In l xs -> ~ In r xs -> swap_ids l r xs = xs.
+Proof.
+  intros Hl Hr. unfold swap_ids. rewrite <- (map_id xs) at 2. apply map_ext_in. intros x Hx.
+  rewrite neqb_false by (intros ->; auto). rewrite neqb_false by (intros ->; auto). reflexivity.
+Qed.
+
+Lemma swap_ids_app l r xs ys : swap_ids l r (xs ++ ys) = swap_ids l r xs ++ swap_ids l r ys.
+Proof. apply map_app. Qed.
+
+Lemma swap_ids_lr l r p m q :
+  NoDup (p ++ l :: m ++ r :: q) -> swap_ids l r (p ++ l :: m ++ r :: q) = p ++ r :: m ++ l :: q.
+Proof.
+  intros ND.
+  assert (Hlr : l <> r).
+  { intros ->. apply NoDup_remove_2 in ND. apply ND. apply in_or_app. right. apply in_or_app. right. left. reflexivity. }
+  assert (Hl : forall x, In x (p ++ m ++ q) -> x <> l).
+  { intros x Hx ->. apply NoDup_remove_2 in ND. apply ND. apply in_app_or in Hx. apply in_or_app.
+    destruct Hx as [Hx|Hx]; [left; exact Hx|right]. apply in_app_or in Hx. apply in_or_app.
+    destruct Hx; [left|right; right]; assumption. }
+  assert (Hr : forall x, In x (p ++ m ++ q) -> x <> r).
+  { intros x Hx ->. rewrite app_comm_cons, app_assoc in ND. apply NoDup_remove_2 in ND. apply ND.
+    apply in_app_or in Hx. apply in_or_app. destruct Hx as [Hx|Hx].
+    - left. apply in_or_app. left. exact Hx.
+    - apply in_app_or in Hx. destruct Hx; [left; apply in_or_app; right; right; assumption|right; assumption]. }
+  rewrite swap_ids_app. cbn [swap_ids map]. fold (swap_ids l r (m ++ r :: q)). fold (swap_ids l r p).
+  rewrite swap_ids_app. cbn [swap_ids map]. fold (swap_ids l r q). fold (swap_ids l r m).
+  rewrite N.eqb_refl, (neqb_false r l) by congruence. rewrite N.eqb_refl.
+  rewrite !swap_ids_notin; auto; intros H.
+  - apply (Hl l); auto. apply in_or_app. right. apply in_or_app. right. exact H.
+  - apply (Hr r); auto. apply in_or_app. right. apply in_or_app. right. exact H.
+  - apply (Hl l); auto. apply in_or_app. right. apply in_or_app. left. exact H.
+  - apply (Hr r); auto. apply in_or_app. right. apply in_or_app. left. exact H.
+  - apply (Hl l); auto. apply in_or_app. left. exact H.
+  - apply (Hr r); auto. apply in_or_app. left. exact H.
+Qed.
+
+Lemma swap_ids_comm l r xs : swap_ids l r xs = swap_ids r l xs.
+Proof.
+  unfold swap_ids. apply map_ext. intros x.
+  destruct (N.eqb_spec x l), (N.eqb_spec x r); congruence.
+Qed.
+
+Lemma swap_ids_self l xs : swap_ids l l xs = xs.
+Proof.
+  unfold swap_ids. rewrite <- (map_id xs) at 2. apply map_ext. intros x.
+  destruct (N.eqb_spec x l); congruence.
+Qed.
+
+Lemma pairs_swap_ids w l r xs :
+  pairs w (swap_ids l r xs) = swap_pairs (l, val w l) (r, val w r) (pairs w xs).
+Proof.
+  unfold pairs, swap_ids, swap_pairs. rewrite !map_map. apply map_ext. intros x. cbn [fst].
+  destruct (N.eqb_spec x l); [reflexivity|]. destruct (N.eqb_spec x r); [reflexivity|reflexivity].
+Qed.
+
+(* two different members of a list without repetition: one comes first *)
+Lemma two_in_split (l r : id) xs :
+  In l xs -> In r xs -> l <> r ->
+  (exists p m q, xs = p ++ l :: m ++ r :: q) \/ (exists p m q, xs = p ++ r :: m ++ l :: q).
+Proof.
+  intros Hl Hr Hne. apply in_split in Hl. destruct Hl as (p & t & ->).
+  apply in_app_or in Hr. destruct Hr as [Hr|[Hr|Hr]]; [|congruence|].
+  - right. apply in_split in Hr. destruct Hr as (p1 & p2 & ->). exists p1, p2, t.
+    rewrite <- app_assoc. reflexivity.
+  - left. apply in_split in Hr. destruct Hr as (t1 & t2 & ->). exists p, t1, t2. reflexivity.
+Qed.
+
+(* ------------------------------------------------------------------ both rings may change *)
+Lemma rings_master w X h' X' :
+  QInv w X -> (forall s, Ring h' (qaddr s :: sel s X')) ->
+  Permutation (fst X' ++ snd X') (fst X ++ snd X) -> (forall s, length (sel s X') = length (sel s X)) ->
+  (forall x, live h' x <-> live (w_h w) x) ->
+  QInv (seth w h') X'.
+Proof.
+  intros I R P Hlen Lv.
+  assert (Hperm : Permutation (allnodes (seth w h') X') (allnodes w X)).
+  { unfold allnodes. change (pools (seth w h')) with (pools w). rewrite !app_assoc.
+    apply Permutation_app_tail. exact P. }
+  constructor.
+  - exact R.
+  - eapply Permutation_NoDup; [symmetry; exact Hperm|apply (qi_nodup _ _ I)].
+  - intros x Hx. eapply Permutation_in in Hx; [|exact Hperm].
+    pose proof (qi_node _ _ I x Hx) as (B & L & V). split; [exact B|]. split; [apply Lv; exact L|exact V].
+  - intros t. change (getq (seth w h') t) with (getq w t). rewrite Hlen. apply (qi_num _ _ I).
+  - intros t. apply (qi_mem _ _ I).
+  - rewrite (Permutation_length Hperm). apply (qi_fresh _ _ I).
+Qed.
+
+Lemma Soup_two_rings h l1 l2 : Ring h l1 -> Ring h l2 -> (forall x, In x l1 -> ~ In x l2) -> Soup h [l1; l2].
+Proof.
+  intros R1 R2 D. apply (Soup_app h [l1] [l2]); auto using Ring_Soup.
+  simpl. intros x. rewrite !app_nil_r. apply D.
+Qed.
+
+Lemma swap_ids_one l r p q :
+  NoDup (p ++ l :: q) -> ~ In r (p ++ l :: q) -> swap_ids l r (p ++ l :: q) = p ++ r :: q.
+Proof.
+  intros ND Hr. rewrite swap_ids_app. cbn [swap_ids map]. fold (swap_ids l r q). fold (swap_ids l r p).
+  rewrite N.eqb_refl. pose proof (NoDup_remove_2 _ _ _ ND) as Hl.
+  rewrite !swap_ids_notin; auto; intros H.
+  - apply Hl. apply in_or_app. right. exact H.
+  - apply Hr. apply in_or_app. right. right. exact H.
+  - apply Hl. apply in_or_app. left. exact H.
+  - apply Hr. apply in_or_app. left. exact H.
+Qed.
+
+Lemma in_fst_snd_sel {A} (X : list A * list A) x : In x (fst X ++ snd X) -> exists s, In x (sel s X).
+Proof. intros H. apply in_app_or in H. destruct H; [exists false|exists true]; assumption. Qed.
+
+Lemma QInv_sel_disj w X s x : QInv w X -> In x (sel s X) -> ~ In x (sel (negb s) X).
+Proof.
+  intros I H H'. eapply (QInv_rings_disj w X s x I); right; eauto.
+Qed.
+
+Lemma QInv_sel_NoDup w X s : QInv w X -> NoDup (sel s X).
+Proof.
+  intros I. pose proof (Ring_NoDup _ _ (qi_ring _ _ I s)) as N. apply NoDup_cons_iff in N. tauto.
+Qed.
+
+Lemma swap_elem_heap w X l r :
+  QInv w X -> In l (fst X ++ snd X) -> In r (fst X ++ snd X) ->
+  exists h', swap_fix (w_h w) l r = Some h' /\
+    (forall t, Ring h' (qaddr t :: swap_ids l r (sel t X))) /\ (forall x, live h' x <-> live (w_h w) x).
+Proof.
+  intros I Hl Hr. destruct (in_fst_snd_sel X l Hl) as [s Hls].
+  pose proof (qi_ring _ _ I s) as Rs. pose proof (qi_ring _ _ I (negb s)) as Ro.
+  set (c := qaddr s) in *. set (c' := qaddr (negb s)) in *. set (h := w_h w) in *.
+  assert (Hother : forall h' S, Frame h h' S -> (forall x, In x S -> In x (c :: sel s X)) ->
+                   Ring h' (c' :: sel (negb s) X)).
+  { intros h' S F Hin. eapply Ring_Frame; eauto. intros x Hx HS. apply Hin in HS.
+    eapply (QInv_rings_disj' w X s x I); eauto. }
+  destruct (N.eq_dec l r) as [<-|Hlr].
+  - (* the same element twice *)
+    apply in_split in Hls. destruct Hls as (p & q & Hsel). rewrite Hsel in Rs.
+    assert (R1 : Ring h (l :: q ++ c :: p)) by (apply (Ring_rot h (c :: p) (l :: q)); exact Rs).
+    destruct (swap_same h l (q ++ c :: p) R1) as (h' & E & R' & F & Lv); [destruct q; discriminate|].
+    exists h'. split; [exact E|]. split; [|exact Lv].
+    intros t. rewrite swap_ids_self. destruct (bool_cases s t) as [->| ->].
+    + fold c. rewrite Hsel. apply (Ring_rot h' (l :: q) (c :: p)). exact R'.
+    + eapply Hother; eauto. intros x Hx. rewrite Hsel.
+      change (l :: q ++ c :: p) with ((l :: q) ++ (c :: p)) in Hx. apply in_app_or in Hx.
+      change (c :: p ++ l :: q) with ((c :: p) ++ (l :: q)). apply in_or_app. tauto.
+  - destruct (in_fst_snd_sel X r Hr) as [s' Hrs]. destruct (bool_cases s s') as [->| ->].
+    + (* both in queue s *)
+      pose proof (QInv_sel_NoDup w X s I) as NDs.
+      assert (Hno_l : ~ In l (sel (negb s) X)) by (eapply QInv_sel_disj; eauto).
+      assert (Hno_r : ~ In r (sel (negb s) X)) by (eapply QInv_sel_disj; eauto).
+      destruct (two_in_split l r (sel s X) Hls Hrs Hlr) as [(p & m & q & Hsel)|(p & m & q & Hsel)];
+        rewrite Hsel in Rs, NDs.
+      * assert (R1 : Ring h (l :: m ++ r :: (q ++ c :: p))).
+        { apply (Ring_rot h (c :: p) (l :: m ++ r :: q)) in Rs. cbn [app] in Rs. rewrite <- app_assoc in Rs. exact Rs. }
+        destruct (swap_in_ring h l m r (q ++ c :: p) R1) as (h' & E & R' & F & Lv).
+        { destruct m; [destruct q|]; discriminate. }
+        exists h'. split; [exact E|]. split; [|exact Lv].
+        intros t. destruct (bool_cases s t) as [->| ->].
+        -- fold c. rewrite Hsel, swap_ids_lr by exact NDs.
+           replace (r :: m ++ l :: q ++ c :: p) with ((r :: m ++ l :: q) ++ (c :: p)) in R'
+             by (cbn [app]; rewrite <- app_assoc; reflexivity).
+           apply Ring_rot in R'. exact R'.
+        -- rewrite swap_ids_notin by assumption. eapply Hother; eauto. intros x Hx. rewrite Hsel.
+           replace (l :: m ++ r :: q ++ c :: p) with ((l :: m ++ r :: q) ++ (c :: p)) in Hx
+             by (cbn [app]; rewrite <- app_assoc; reflexivity).
+           apply in_app_or in Hx. change (c :: p ++ l :: m ++ r :: q) with ((c :: p) ++ (l :: m ++ r :: q)).
+           apply in_or_app. tauto.
+      * assert (R1 : Ring h (l :: (q ++ c :: p) ++ r :: m)).
+        { replace (c :: p ++ r :: m ++ l :: q) with ((c :: p ++ r :: m) ++ (l :: q)) in Rs
+            by (cbn [app]; rewrite <- app_assoc; reflexivity).
+          apply Ring_rot in Rs. cbn [app] in Rs. rewrite <- app_assoc. exact Rs. }
+        destruct (swap_in_ring h l (q ++ c :: p) r m R1) as (h' & E & R' & F & Lv).
+        { destruct q; discriminate. }
+        exists h'. split; [exact E|]. split; [|exact Lv].
+        intros t. destruct (bool_cases s t) as [->| ->].
+        -- fold c. rewrite Hsel, swap_ids_comm, swap_ids_lr by exact NDs.
+           replace (r :: (q ++ c :: p) ++ l :: m) with ((r :: q) ++ (c :: p ++ l :: m)) in R'
+             by (cbn [app]; rewrite <- app_assoc; reflexivity).
+           apply Ring_rot in R'. cbn [app] in R'. rewrite <- app_assoc in R'. exact R'.
+        -- rewrite swap_ids_notin by assumption. eapply Hother; eauto. intros x Hx. rewrite Hsel.
+           replace (l :: (q ++ c :: p) ++ r :: m) with ((l :: q) ++ (c :: p ++ r :: m)) in Hx
+             by (cbn [app]; rewrite <- app_assoc; reflexivity).
+           apply in_app_or in Hx.
+           replace (c :: p ++ r :: m ++ l :: q) with ((c :: p ++ r :: m) ++ (l :: q))
+             by (cbn [app]; rewrite <- app_assoc; reflexivity).
+           apply in_or_app. tauto.
+    + (* l in queue s, r in the other queue *)
+      pose proof (QInv_sel_NoDup w X s I) as NDs. pose proof (QInv_sel_NoDup w X (negb s) I) as NDo.
+      assert (Hno_r : ~ In r (sel s X)).
+      { intros H. eapply (QInv_sel_disj w X s r); eauto. }
+      assert (Hno_l : ~ In l (sel (negb s) X)) by (eapply QInv_sel_disj; eauto).
+      apply in_split in Hls. destruct Hls as (p & q & Hsel).
+      apply in_split in Hrs. destruct Hrs as (p' & q' & Hsel').
+      rewrite Hsel in Rs, NDs, Hno_r. rewrite Hsel' in Ro, NDo, Hno_l.
+      assert (R1 : Ring h (l :: q ++ c :: p)) by (apply (Ring_rot h (c :: p) (l :: q)); exact Rs).
+      assert (R2 : Ring h (r :: q' ++ c' :: p')) by (apply (Ring_rot h (c' :: p') (r :: q')); exact Ro).
+      assert (S : Soup h [l :: q ++ c :: p; r :: q' ++ c' :: p']).
+      { apply Soup_two_rings; auto. intros x Hx Hx'.
+        apply (QInv_rings_disj w X s x I).
+        - fold c. rewrite Hsel. change (l :: q ++ c :: p) with ((l :: q) ++ (c :: p)) in Hx.
+          apply in_app_or in Hx. change (c :: p ++ l :: q) with ((c :: p) ++ (l :: q)). apply in_or_app. tauto.
+        - fold c'. rewrite Hsel'. change (r :: q' ++ c' :: p') with ((r :: q') ++ (c' :: p')) in Hx'.
+          apply in_app_or in Hx'. change (c' :: p' ++ r :: q') with ((c' :: p') ++ (r :: q')). apply in_or_app. tauto. }
+      destruct (swap_two h l (q ++ c :: p) r (q' ++ c' :: p') R1 R2 S) as (h' & E & Ra & Rb & F & Lv).
+      { destruct q; discriminate. } { destruct q'; discriminate. }
+      exists h'. split; [exact E|]. split; [|exact Lv].
+      intros t. destruct (bool_cases s t) as [->| ->].
+      * fold c. rewrite Hsel, swap_ids_one by assumption.
+        apply (Ring_rot h' (r :: q) (c :: p)). exact Ra.
+      * fold c'. rewrite Hsel', swap_ids_comm, swap_ids_one by assumption.
+        apply (Ring_rot h' (l :: q') (c' :: p')). exact Rb.
+Qed.
+
+Lemma swap_ids_perm l r xs :
+  NoDup xs -> In l xs -> In r xs -> Permutation (swap_ids l r xs) xs.
+Proof.
+  intros ND Hl Hr. destruct (N.eq_dec l r) as [<-|Hne]; [rewrite swap_ids_self; reflexivity|].
+  destruct (two_in_split l r xs Hl Hr Hne) as [(p & m & q & ->)|(p & m & q & ->)].
+  - rewrite swap_ids_lr by exact ND. perm_app. apply perm_swap.
+  - rewrite swap_ids_comm, swap_ids_lr by exact ND. perm_app. apply perm_swap.
+Qed.
+
+Lemma swap_elem_ok w X l r :
+  QInv w X -> In l (fst X ++ snd X) -> In r (fst X ++ snd X) ->
+  exists w', q_swap_elem w l r = Ok w' /\ trace_ok w w' /\
+    let X' := (swap_ids l r (fst X), swap_ids l r (snd X)) in
+    QInv w' X' /\
+    abs w' X' = (swap_pairs (l, val w l) (r, val w r) (fst (abs w X)),
+                 swap_pairs (l, val w l) (r, val w r) (snd (abs w X))).
+Proof.
+  intros I Hl Hr. destruct (swap_elem_heap w X l r I Hl Hr) as (h' & E & R & Lv).
+  rewrite q_swap_elem_eq, E. exists (seth w h'). split; [reflexivity|].
+  split; [intros H; split; [exact H|reflexivity]|]. split.
+  - apply (rings_master w X h'); auto.
+    + intros t. destruct t; apply R.
+    + cbn [fst snd]. rewrite <- swap_ids_app. apply swap_ids_perm; auto.
+      pose proof (qi_nodup _ _ I) as N. unfold allnodes in N. rewrite app_assoc in N. eapply NoDup_app_l; eauto.
+    + intros t. destruct t; cbn [sel fst snd]; apply map_length.
+  - unfold abs. cbn [fst snd]. rewrite !pairs_swap_ids. reflexivity.
+Qed.
+
+(* ------------------------------------------------------------------ a_que_swap (repaired) *)
+Lemma Seg_fields h h' l :
+  Seg h l -> (forall x, In x (removelast l) -> rd_next h' x = rd_next h x) ->
+  (forall y, In y (tl l) -> rd_prev h' y = rd_prev h y) -> Seg h' l.
+Proof.
+  induction l as [|a l IH]; intros S Hn Hp; [exact I|]. destruct l as [|b l]; [exact I|].
+  destruct S as [[E1 E2] S]. split.
+  - split; [rewrite Hn; [exact E1|left; reflexivity]|rewrite Hp; [exact E2|left; reflexivity]].
+  - apply IH; auto.
+    + intros x Hx. apply Hn. right. exact Hx.
+    + intros y Hy. apply Hp. right. exact Hy.
+Qed.
+
+(* a_que_move_: the sentinel [self] holds a copy of the fields of [from]; re-attach the ring *)
+Lemma move_spec h0 self from ys :
+  Piece h0 ys -> NoDup (self :: ys) -> live h0 self -> from <> self -> ~ In from ys ->
+  rd_next h0 self = Some (hd from ys) -> rd_prev h0 self = Some (last ys from) ->
+  exists h1, q_move_ h0 self from = Ok h1 /\ Ring h1 (self :: ys) /\
+    Frame h0 h1 (self :: ys) /\ (forall x, live h1 x <-> live h0 x).
+Proof.
+  intros [Sg Lv] ND Ls Hfs Hfy En Ep. unfold q_move_. rewrite En. cbn [lift].
+  destruct ys as [|y t].
+  - cbn [hd]. rewrite N.eqb_refl. destruct (init_ring h0 self Ls) as (h1 & E & R & F & L).
+    rewrite E. exists h1. cbn [lift]. auto.
+  - cbn [hd]. assert (Hyf : y <> from) by (intros ->; apply Hfy; left; reflexivity).
+    rewrite (neqb_false _ _ Hyf).
+    assert (Ly : live h0 y) by (inversion Lv; auto).
+    destruct (wr_prev_spec h0 y self Ly) as (h1 & E1 & P1 & N1 & O1 & L1). rewrite E1. cbn [lift].
+    assert (Hsy : self <> y) by (apply NoDup_cons_iff in ND; intros ->; apply (proj1 ND); left; reflexivity).
+    rewrite (rd_prev_dget h0 h1 self) by (apply O1; exact Hsy). rewrite Ep. cbn [lift].
+    set (z := last (y :: t) from).
+    assert (Hz : In z (y :: t)).
+    { unfold z. rewrite <- last_cons_default with (d := 0). rewrite last_cons_default.
+      destruct (snoc_cases (y :: t)) as [H|(m & u & H)]; [discriminate|]. rewrite H, last_last.
+      apply in_or_app. right. left. reflexivity. }
+    assert (Lz : live h1 z) by (apply L1; rewrite Forall_forall in Lv; auto).
+    destruct (wr_next_spec h1 z self Lz) as (h2 & E2 & N2 & P2 & O2 & L2). rewrite E2. cbn [lift].
+    assert (Hsz : self <> z) by (apply NoDup_cons_iff in ND; intros E; apply (proj1 ND); rewrite E; exact Hz).
+    exists h2. split; [reflexivity|]. split; [|split].
+    + apply Ring_iff_Seg. split; [exact ND|]. split.
+      * rewrite Forall_forall. intros x Hx. apply L2, L1. destruct Hx as [<-|Hx]; [exact Ls|].
+        rewrite Forall_forall in Lv. auto.
+      * assert (ND' : NoDup (y :: t)) by (apply NoDup_cons_iff in ND; tauto).
+        change (self :: (y :: t) ++ [self]) with ([self] ++ (y :: t) ++ [self]).
+        assert (Sg2 : Seg h2 (y :: t)).
+        { apply (Seg_fields h0); auto.
+          - intros x Hx. destruct (N.eq_dec x z) as [->|Hxz].
+            + exfalso. unfold z in Hx. 
+              destruct (snoc_cases (y :: t)) as [H|(m & u & H)]; [discriminate|].
+              rewrite H in Hx, ND'. rewrite removelast_last in Hx.
+              rewrite <- last_cons_default with (d := 0) in Hx. rewrite last_cons_default in Hx.
+              rewrite <- H in Hx. fold z in Hx.
+              assert (z = u) by (unfold z; rewrite H; apply last_last). subst u.
+              eapply NoDup_app_disj; eauto. left; reflexivity.
+            + rewrite (rd_next_dget h1 h2 x) by (apply O2; exact Hxz).
+              destruct (N.eq_dec x y) as [->|Hxy]; [exact N1|]. apply rd_next_dget, O1. exact Hxy.
+          - intros x Hx. cbn [tl] in Hx.
+            assert (Hxy : x <> y) by (intros ->; apply NoDup_cons_iff in ND'; tauto).
+            destruct (N.eq_dec x z) as [->|Hxz].
+            + rewrite P2. apply rd_prev_dget, O1. exact Hxy.
+            + rewrite (rd_prev_dget h1 h2 x) by (apply O2; exact Hxz). apply rd_prev_dget, O1. exact Hxy. }
+        cbn [app]. split.
+        -- split.
+           ++ rewrite (rd_next_dget h1 h2 self) by (apply O2; exact Hsz).
+              rewrite (rd_next_dget h0 h1 self) by (apply O1; exact Hsy). exact En.
+           ++ destruct (N.eq_dec y z) as [Eyz|Hyz].
+              ** rewrite Eyz, P2, <- Eyz. exact P1.
+              ** rewrite (rd_prev_dget h1 h2 y) by (apply O2; exact Hyz). exact P1.
+        -- change (y :: t ++ [self]) with ((y :: t) ++ [self]).
+           destruct (snoc_cases (y :: t)) as [H|(m & u & H)]; [discriminate|].
+           assert (Hzu : z = u) by (unfold z; rewrite H; apply last_last).
+           rewrite H in *. rewrite <- app_assoc. cbn [app]. apply Seg_app_iff. split; [exact Sg2|].
+           cbn [Seg]. split; [|exact I]. rewrite <- Hzu. split; [exact N2|].
+           rewrite (rd_prev_dget h1 h2 self) by (apply O2; exact Hsz).
+           rewrite (rd_prev_dget h0 h1 self) by (apply O1; exact Hsy). rewrite Ep, last_last, Hzu. reflexivity.
+    + intros x Hx. rewrite O2, O1; auto.
+      * intros ->. apply Hx. right. left. reflexivity.
+      * intros ->. apply Hx. right. exact Hz.
+    + intros x. rewrite L2. apply L1.
 Qed.
